@@ -44,6 +44,11 @@ type op struct {
 	// Hold: stop the teardown thread just before the disconnect callback (after the
 	// manager's locked bookkeeping); a later "notify" step lets it continue.
 	Hold bool `json:"hold,omitempty"`
+	// HoldAt: "notify" (verifYield point before the callback, default) or "sweep" (inside the agent's
+	// callback, after the relay sweep and before the route sweeps: the debug log record of the sweep)
+	HoldAt string `json:"hold_at,omitempty"`
+	Fail   bool   `json:"fail,omitempty"` // kawake: the hanging keepalive write returns an error
+	N      int    `json:"n,omitempty"`    // storm: number of racing registrations
 
 	blockedByNotify bool
 }
@@ -75,10 +80,16 @@ type failure struct{ sig, detail string }
 type logCounter struct {
 	mu  *sync.Mutex
 	out *[]string
+	// sweep is called (if set) when the agent logs that its relay sweep removed entries
+	sweep func()
 }
 
 func (h logCounter) Enabled(context.Context, slog.Level) bool { return true }
 func (h logCounter) Handle(_ context.Context, r slog.Record) error {
+	if r.Message == "cleaned up relay streams" && h.sweep != nil {
+		h.sweep()
+		return nil
+	}
 	if r.Message != "peer disconnected" {
 		return nil
 	}
@@ -127,7 +138,12 @@ func runScenario(t *testing.T, sc scenario) (obs observed, fails []failure) {
 		}
 		var lmu sync.Mutex
 		var cbRaw []string
-		ag.VerifPeerfamSetLogger(slog.New(logCounter{&lmu, &cbRaw}))
+		var sweepHook func()
+		ag.VerifPeerfamSetLogger(slog.New(logCounter{&lmu, &cbRaw, func() {
+			if sweepHook != nil {
+				sweepHook()
+			}
+		}}))
 		ag.VerifPeerfamWireFrames()
 		m := ag.VerifPeerfamManager()
 		rm := ag.VerifPeerfamRouteManager()
@@ -266,8 +282,8 @@ func runScenario(t *testing.T, sc scenario) (obs observed, fails []failure) {
 			defer cmu.Unlock()
 			perPeer := map[int]int{}
 			for tag, c := range conns {
-				if c.IsClosed() {
-					continue
+				if c.IsClosed() || c.CloseHeld() {
+					continue // closed, or unregistered by a DisconnectAll that is about to close it
 				}
 				pc := pconn[tag]
 				if pc == nil {
@@ -289,14 +305,12 @@ func runScenario(t *testing.T, sc scenario) (obs observed, fails []failure) {
 		// --- scheduling point: a disconnect notification can be held just before the callback
 		var hmu sync.Mutex
 		holdNext := false
+		holdPlace := "notify"
 		var lastHeld chan struct{}
 		held := map[int]chan struct{}{} // connection tag -> release channel
-		peer.VerifYieldHook = func(point string) {
-			if point != "peer.handleDisconnect.notify" {
-				return
-			}
+		holdHere := func(place string) {
 			hmu.Lock()
-			if !holdNext {
+			if !holdNext || holdPlace != place {
 				hmu.Unlock()
 				return
 			}
@@ -306,7 +320,25 @@ func runScenario(t *testing.T, sc scenario) (obs observed, fails []failure) {
 			hmu.Unlock()
 			<-ch
 		}
+		peer.VerifYieldHook = func(point string) {
+			if point == "peer.handleDisconnect.notify" {
+				holdHere("notify")
+			}
+		}
+		sweepHook = func() { holdHere("sweep") }
 		defer func() { peer.VerifYieldHook = nil }()
+
+		midHeld := map[int]int{} // connection held in the middle of its callback -> its peer
+		hung := map[int]bool{}   // connections whose keepalive write hangs
+		daActive := false        // a split DisconnectAll is in progress
+		var daDone atomic.Bool
+		lastClosed := -1
+		lastPeer := 0 // peer of the connection the previous per-connection step was about
+		peerOf := func(tag int) int {
+			cmu.Lock()
+			defer cmu.Unlock()
+			return short[conns[tag].RemoteID.ShortString()]
+		}
 
 		var runOp func(o op)
 		releaseAll := func() {
@@ -338,73 +370,201 @@ func runScenario(t *testing.T, sc scenario) (obs observed, fails []failure) {
 		const blockedRounds = 200      // >= 10 ms: long enough for an unblocked registration to finish
 		const completeRounds = 2400000 // >= 2 min: a registration that is not blocked must finish
 
-		runOp = func(o op) {
-			before := look()
-			staleFor := -1 // peer whose current connection must not be harmed by this step
-			sig := "stale-teardown-harms-live-connection"
-			switch o.K {
-			case "dial", "accept":
-				c := newConn(o.P, o.K == "dial")
-				o.C = c.Tag
-				var pc *peer.Connection
-				var err error
-				var fin atomic.Bool
-				go func() {
-					if o.K == "dial" {
-						tr2 := &peerfam.Transport{DialFn: func(ctx context.Context, addr string) (transport.PeerConn, error) { return c, nil }}
-						pc, err = m.ConnectWithTransport(context.Background(), tr2, addrName(o.P))
-					} else {
-						pc, err = m.Accept(context.Background(), c)
-					}
-					fin.Store(true)
-				}()
-				if len(held) > 0 {
-					// a notification is in progress: either the registration completes anyway (no
-					// serialisation: the window is open) or it waits for the notification to end
-					if !spin(fin.Load, blockedRounds) {
-						o.blockedByNotify = true
-						tags := []int{}
-						for tag := range held {
-							tags = append(tags, tag)
-						}
-						sort.Ints(tags)
-						for _, tag := range tags {
-							close(held[tag])
-							delete(held, tag)
-						}
-						if !spin(fin.Load, completeRounds) {
-							panic("registration did not complete after the held notification was released")
-						}
-						synctest.Wait()
-						for _, tag := range tags {
-							obs.Ops = append(obs.Ops, op{K: "notify", C: tag})
-							obs.Snaps = append(obs.Snaps, snapT{Skip: true})
-						}
-					}
-				} else if !spin(fin.Load, completeRounds) {
-					panic("registration did not complete")
-				}
-				synctest.Wait()
-				if err != nil {
-					fail("handshake-error", "%v: %v", o, err)
-				}
+		// finishDA lets a split DisconnectAll run to its end (each Close is recorded as a step)
+		var finishDA func()
+		// wakeHung: other writes to a connection whose keepalive write hangs would queue on its write
+		// mutex (not a durable block), so the hanging write returns first (successfully)
+		wakeHungRegistered := func() {
+			tags := []int{}
+			for tag := range hung {
+				tags = append(tags, tag)
+			}
+			sort.Ints(tags)
+			for _, tag := range tags {
 				cmu.Lock()
-				pconn[c.Tag] = pc
+				pc := pconn[tag]
 				cmu.Unlock()
+				if pc != nil && m.VerifRegistered(pc) {
+					runOp(op{K: "kawake", C: tag})
+				}
+			}
+		}
+		armHold := func(o op) {
+			if o.Hold {
+				hmu.Lock()
+				holdNext = true
+				holdPlace = "notify"
+				if o.HoldAt == "sweep" {
+					holdPlace = "sweep"
+				}
+				hmu.Unlock()
+			}
+		}
+		// settleHold: after the teardown ran as far as it goes, did it stop at the requested place?
+		settleHold := func(o *op) (midCallback bool) {
+			synctest.Wait()
+			hmu.Lock()
+			defer hmu.Unlock()
+			if o.Hold && !holdNext && lastHeld != nil {
+				held[o.C] = lastHeld
+				lastHeld = nil
+				midCallback = o.HoldAt == "sweep"
+			} else {
+				o.Hold = false // nothing reached the place (stale teardown, or no relay to sweep)
+				o.HoldAt = ""
+			}
+			holdNext = false
+			return
+		}
+
+		// register runs n registrations for peer p concurrently (n = 1: a plain dial / accept)
+		register := func(o *op, kinds []string) {
+			n := len(kinds)
+			cs := make([]*peerfam.Conn, n)
+			pcs := make([]*peer.Connection, n)
+			errs := make([]error, n)
+			var fin atomic.Int32
+			for i := range kinds {
+				cs[i] = newConn(o.P, kinds[i] == "dial")
+			}
+			o.C = cs[0].Tag
+			start := make(chan struct{})
+			for i := range kinds {
+				go func(i int) {
+					<-start
+					if kinds[i] == "dial" {
+						c := cs[i]
+						tr2 := &peerfam.Transport{DialFn: func(ctx context.Context, addr string) (transport.PeerConn, error) { return c, nil }}
+						pcs[i], errs[i] = m.ConnectWithTransport(context.Background(), tr2, addrName(o.P))
+					} else {
+						pcs[i], errs[i] = m.Accept(context.Background(), cs[i])
+					}
+					fin.Add(1)
+				}(i)
+			}
+			close(start)
+			done := func() bool { return int(fin.Load()) == n }
+			if len(held) > 0 {
+				// a notification is in progress: either the registrations complete anyway (no
+				// serialisation: the window is open) or they wait for the notification to end
+				if !spin(done, blockedRounds) {
+					o.blockedByNotify = true
+					tags := []int{}
+					for tag := range held {
+						tags = append(tags, tag)
+					}
+					sort.Ints(tags)
+					for _, tag := range tags {
+						close(held[tag])
+						delete(held, tag)
+						delete(midHeld, tag)
+					}
+					if !spin(done, completeRounds) {
+						panic("registration did not complete after the held notification was released")
+					}
+					synctest.Wait()
+					for _, tag := range tags {
+						obs.Ops = append(obs.Ops, op{K: "notify", C: tag})
+						obs.Snaps = append(obs.Snaps, snapT{Skip: true})
+					}
+				}
+			} else if !spin(done, completeRounds) {
+				panic("registration did not complete")
+			}
+			synctest.Wait()
+			// number the winner of the race first (the model registers them in order)
+			win := -1
+			for i := range kinds {
+				if errs[i] != nil {
+					fail("handshake-error", "%v: %v", *o, errs[i])
+				}
+				if pcs[i] != nil && m.VerifRegistered(pcs[i]) && win < 0 {
+					win = i
+				}
+			}
+			if win > 0 {
+				cmu.Lock()
+				a, b := cs[0], cs[win]
+				a.Tag, b.Tag = b.Tag, a.Tag
+				conns[a.Tag], conns[b.Tag] = a, b
+				regTime[a.Tag], regTime[b.Tag] = regTime[b.Tag], regTime[a.Tag]
+				cmu.Unlock()
+				cs[0], cs[win] = cs[win], cs[0]
+				pcs[0], pcs[win] = pcs[win], pcs[0]
+			}
+			cmu.Lock()
+			for i := range kinds {
+				pconn[cs[i].Tag] = pcs[i]
+			}
+			cmu.Unlock()
+			for i := range kinds {
+				c, pc := cs[i], pcs[i]
 				// a rejected duplicate must be closed and must never deliver
 				if pc != nil && !m.VerifRegistered(pc) {
 					if !c.IsClosed() {
-						fail("rejected-connection-left-open", "%v: duplicate connection c%d was not registered and not closed", o, c.Tag)
+						fail("rejected-connection-left-open", "%v: duplicate connection c%d was not registered and not closed", *o, c.Tag)
+						continue // (injecting into an open connection with a live reader would be a delivery of its own)
 					}
 					r0 := routesOf(o.P)
 					advertise(c)
 					synctest.Wait()
 					if routesOf(o.P) != r0 {
-						fail("rejected-connection-delivers", "%v: a frame sent on the rejected duplicate c%d was processed", o, c.Tag)
+						fail("rejected-connection-delivers", "%v: a frame sent on the rejected duplicate c%d was processed", *o, c.Tag)
 					}
 					readerGone[c.Tag] = true
 				}
-			case "kafail", "readerr", "frame", "notify":
+			}
+		}
+
+		runOp = func(o op) {
+			if o.C == -1 {
+				o.C = lastClosed
+			}
+			if o.P == -1 && lastClosed >= 0 {
+				o.P = peerOf(lastClosed)
+			}
+			if o.P == -2 {
+				o.P = lastPeer
+			}
+			if o.C < 0 || o.P < 0 {
+				return
+			}
+			// steps that would queue on a lock held by something the script keeps waiting
+			switch o.K {
+			case "kafail", "readerr", "kawake", "kahang", "disconnect", "disconnectall", "dabegin":
+				if daActive {
+					pending := o.K == "disconnect" || o.K == "disconnectall" || o.K == "dabegin"
+					cmu.Lock()
+					if o.C < len(conns) && conns[o.C].CloseHeld() {
+						pending = true
+					}
+					cmu.Unlock()
+					if pending {
+						finishDA()
+					}
+				}
+			}
+			switch o.K {
+			case "frame", "storm", "dial", "accept":
+				wakeHungRegistered()
+			}
+			before := look()
+			staleFor := -1 // peer whose current connection must not be harmed by this step
+			sig := "stale-teardown-harms-live-connection"
+			midCallback := false
+			switch o.K {
+			case "dial", "accept":
+				register(&o, []string{o.K})
+			case "storm":
+				if o.N < 2 {
+					o.N = 2
+				}
+				kinds := make([]string, o.N)
+				for i := range kinds {
+					kinds[i] = []string{"dial", "accept"}[i%2]
+				}
+				register(&o, kinds)
+			case "kafail", "readerr", "frame", "notify", "kahang", "kawake":
 				cmu.Lock()
 				if o.C >= len(conns) {
 					cmu.Unlock()
@@ -419,22 +579,19 @@ func runScenario(t *testing.T, sc scenario) (obs observed, fails []failure) {
 						staleFor = p
 					}
 					o.P = p
+					lastPeer = p
 				}
-				if (o.K == "kafail" || o.K == "readerr") && len(held) > 0 {
+				if (o.K == "kafail" || o.K == "readerr" || o.K == "kawake" || o.K == "kahang") && len(held) > 0 {
 					// another teardown could block on the manager's locks (not a durable block): finish the held ones first
 					releaseAll()
 					before = look()
 				}
 				switch o.K {
 				case "kafail":
-					if c.IsClosed() || pc == nil {
+					if c.IsClosed() || pc == nil || hung[o.C] {
 						return
 					}
-					if o.Hold {
-						hmu.Lock()
-						holdNext = true
-						hmu.Unlock()
-					}
+					armHold(o)
 					if o.Via == "timeout" {
 						pc.VerifSetLastActivity(time.Now().Add(-kaInterval - kaTimeout - time.Second))
 					} else {
@@ -448,11 +605,7 @@ func runScenario(t *testing.T, sc scenario) (obs observed, fails []failure) {
 					if readerGone[o.C] {
 						return
 					}
-					if o.Hold {
-						hmu.Lock()
-						holdNext = true
-						hmu.Unlock()
-					}
+					armHold(o)
 					if c.IsClosed() {
 						c.S.Release()
 					} else {
@@ -467,6 +620,27 @@ func runScenario(t *testing.T, sc scenario) (obs observed, fails []failure) {
 					if c.IsClosed() {
 						readerGone[o.C] = true
 					}
+				case "kahang":
+					// the keepalive loop ticks and its write hangs on the dying link
+					if c.IsClosed() || pc == nil || hung[o.C] {
+						return
+					}
+					c.S.HoldWrites()
+					el := time.Since(regTime[o.C]) % kaInterval
+					time.Sleep(kaInterval - el)
+					synctest.Wait()
+					if !c.S.WriteWaiting() {
+						c.S.ReleaseWrites(false)
+						return
+					}
+					hung[o.C] = true
+				case "kawake":
+					if !hung[o.C] {
+						return
+					}
+					delete(hung, o.C)
+					armHold(o)
+					c.S.ReleaseWrites(o.Fail)
 				case "notify":
 					ch, ok := held[o.C]
 					if !ok {
@@ -476,23 +650,80 @@ func runScenario(t *testing.T, sc scenario) (obs observed, fails []failure) {
 					close(ch)
 					sig = "late-notification-harms-live-connection"
 				}
-				if o.K == "kafail" || o.K == "readerr" {
-					synctest.Wait()
-					hmu.Lock()
-					if o.Hold && !holdNext && lastHeld != nil {
-						held[o.C] = lastHeld
-						lastHeld = nil
-					} else {
-						o.Hold = false // nothing reached the notification (stale teardown)
-					}
-					holdNext = false
-					hmu.Unlock()
+				if o.K == "kafail" || o.K == "readerr" || o.K == "kawake" {
+					midCallback = settleHold(&o)
 				}
 			case "disconnect":
 				m.Disconnect(peerfam.AgentIDOf(o.P))
 			case "disconnectall":
 				m.DisconnectAll()
+			case "dabegin":
+				// DisconnectAll whose Close calls take their time: every registered connection's
+				// transport Close blocks until a "daclose" step
+				if daActive {
+					return
+				}
+				n := 0
+				cmu.Lock()
+				for tag, c := range conns {
+					if pc := pconn[tag]; pc != nil && !c.IsClosed() && m.VerifRegistered(pc) {
+						c.HoldClose()
+						n++
+					}
+				}
+				cmu.Unlock()
+				if n == 0 {
+					return
+				}
+				daActive = true
+				daDone.Store(false)
+				go func() {
+					m.DisconnectAll()
+					daDone.Store(true)
+				}()
+			case "daclose":
+				if !daActive {
+					return
+				}
+				synctest.Wait()
+				tag := -1
+				cmu.Lock()
+				for t, c := range conns {
+					if c.CloseWaiting() {
+						tag = t
+					}
+				}
+				cmu.Unlock()
+				if tag < 0 {
+					// nothing is being closed any more: DisconnectAll has returned
+					cmu.Lock()
+					for _, c := range conns {
+						c.ReleaseClose()
+					}
+					cmu.Unlock()
+					daActive = false
+					return
+				}
+				o.C = tag
+				lastClosed = tag
+				cmu.Lock()
+				conns[tag].ReleaseClose()
+				cmu.Unlock()
+				synctest.Wait()
+				if daDone.Load() {
+					cmu.Lock()
+					for _, c := range conns {
+						c.ReleaseClose()
+					}
+					cmu.Unlock()
+					daActive = false
+				}
 			case "relay":
+				for _, hp := range midHeld {
+					if hp == o.P {
+						return // its relay sweep is already over; the model's one-step callback would differ
+					}
+				}
 				relaySeq++
 				other := peerfam.AgentIDOf(50)
 				ag.VerifPeerfamRelayInsert(peerfam.AgentIDOf(o.P), relaySeq, other, relaySeq+500000)
@@ -507,7 +738,21 @@ func runScenario(t *testing.T, sc scenario) (obs observed, fails []failure) {
 			default:
 				panic("unknown op " + o.K)
 			}
+			if midCallback {
+				midHeld[o.C] = o.P
+			}
 			record(o)
+			if len(midHeld) > 0 {
+				// some callback is stopped in its middle: the relay sweep has happened, the route sweeps
+				// have not; the model's callback is one step, so these observations are not compared
+				obs.Snaps[len(obs.Snaps)-1] = snapT{Skip: true}
+			}
+			if o.K == "notify" {
+				delete(midHeld, o.C)
+				if len(midHeld) == 0 {
+					obs.Snaps[len(obs.Snaps)-1] = snapshot()
+				}
+			}
 			after := look()
 			if staleFor >= 0 {
 				p := staleFor
@@ -520,17 +765,36 @@ func runScenario(t *testing.T, sc scenario) (obs observed, fails []failure) {
 			checkOpenRegistered(o)
 			flushAuto()
 		}
+		finishDA = func() {
+			for i := 0; daActive && i < 64; i++ {
+				runOp(op{K: "daclose"})
+			}
+		}
 		for _, o := range sc.Ops {
 			runOp(o)
 		}
 		releaseAll()
+		finishDA()
+		wakeHungRegistered()
+		for tag := range hung {
+			cmu.Lock()
+			conns[tag].S.ReleaseWrites(true)
+			cmu.Unlock()
+		}
+		synctest.Wait()
 
 		// teardown: let every held reader go, then stop the agent's components
+		// (every reader gets an error, every hanging write / slow Close returns: also the loops of a
+		// connection that a broken manager no longer knows must end, or Stop would wait for ever)
 		cmu.Lock()
 		for _, c := range conns {
+			c.ReleaseClose()
+			c.S.ReleaseWrites(true)
 			c.S.Release()
+			c.S.FailRead()
 		}
 		cmu.Unlock()
+		synctest.Wait()
 		ag.Stop()
 		cmu.Lock()
 		for _, pc := range pconn {
@@ -573,6 +837,37 @@ func witnesses() []scenario {
 			{K: "frame", C: 1}, {K: "relay", P: 0},
 			{K: "notify", C: 0}, // the callback of c0 now wipes what belongs to c1
 			{K: "frame", C: 1}}},
+		{Name: "w-keepalive-write-hangs-past-reconnect", NPeers: 1, Ops: []op{
+			{K: "dial", P: 0}, {K: "frame", C: 0},
+			{K: "kahang", C: 0},  // keepalive loop of c0 is stuck in its write
+			{K: "readerr", C: 0}, // the read loop tears c0 down
+			{K: "accept", P: 0},  // the peer is back as c1
+			{K: "frame", C: 1}, {K: "relay", P: 0},
+			{K: "kawake", C: 0, Fail: true}, // only now the write of c0 fails: its teardown must not touch c1
+			{K: "frame", C: 1}}},
+		{Name: "w-disconnectall-slow-close-redial", NPeers: 2, Ops: []op{
+			{K: "dial", P: 0}, {K: "dial", P: 1}, {K: "frame", C: 0}, {K: "frame", C: 1},
+			{K: "dabegin"},        // sleep entry: map replaced, Close calls take their time
+			{K: "daclose"},        // one connection is down ...
+			{K: "readerr", C: -1}, // ... its read loop reports it
+			{K: "accept", P: -1},  // ... and its peer dials back in while the other Close is still running
+			{K: "frame", C: 2},
+			{K: "daclose"}, // DisconnectAll finishes: the new registration must survive
+			{K: "frame", C: 2}, {K: "dial", P: -1}, {K: "frame", C: 2}}},
+		{Name: "w-callback-sweep-window", NPeers: 1, Ops: []op{
+			{K: "dial", P: 0}, {K: "frame", C: 0}, {K: "relay", P: 0},
+			{K: "readerr", C: 0, Hold: true, HoldAt: "sweep"}, // c0's callback is in the middle of its sweeps
+			{K: "accept", P: 0}, // must wait for the sweeps to end
+			{K: "frame", C: 1}, {K: "relay", P: 0},
+			{K: "notify", C: 0},
+			{K: "frame", C: 1}}},
+		{Name: "w-registration-storm-behind-teardown", NPeers: 3, Ops: []op{
+			{K: "dial", P: 1}, {K: "relay", P: 1},
+			{K: "readerr", C: 0, Hold: true}, // a teardown of another peer is in progress
+			{K: "storm", P: 0, N: 4},         // dial + accept + dial + accept for peer 0 at once
+			{K: "notify", C: 0},
+			{K: "frame", C: 1}, {K: "frame", C: 2},
+			{K: "storm", P: 2, N: 6}, {K: "frame", C: 5}, {K: "storm", P: 2, N: 2}}},
 		{Name: "w-explicit-disconnect-then-reader", NPeers: 1, Ops: []op{
 			{K: "dial", P: 0}, {K: "frame", C: 0}, {K: "disconnect", P: 0}, {K: "accept", P: 0}, {K: "frame", C: 1}, {K: "readerr", C: 0}}},
 	}
@@ -596,10 +891,27 @@ func genScenario(rd *vh.Rand, i int) scenario {
 		case x < 28:
 			sc.Ops = append(sc.Ops, op{K: "accept", P: p})
 			nconn++
+		case x < 38:
+			if rd.Chance(1, 3) {
+				sc.Ops = append(sc.Ops, op{K: "relay", P: p})
+			}
+			sc.Ops = append(sc.Ops, op{K: "kafail", C: c, Via: []string{"write", "timeout"}[rd.Intn(2)], Hold: rd.Chance(1, 3), HoldAt: []string{"notify", "sweep"}[rd.Intn(2)]})
 		case x < 42:
-			sc.Ops = append(sc.Ops, op{K: "kafail", C: c, Via: []string{"write", "timeout"}[rd.Intn(2)], Hold: rd.Chance(1, 3)})
-		case x < 56:
-			sc.Ops = append(sc.Ops, op{K: "readerr", C: c, Hold: rd.Chance(1, 3)})
+			// the keepalive write hangs; typically the read loop fails and the peer comes back before it returns
+			sc.Ops = append(sc.Ops, op{K: "kahang", C: c})
+			if rd.Chance(3, 4) {
+				sc.Ops = append(sc.Ops, op{K: "readerr", C: c})
+				if rd.Chance(3, 4) {
+					sc.Ops = append(sc.Ops, op{K: []string{"dial", "accept"}[rd.Intn(2)], P: -2})
+					nconn++
+				}
+			}
+			sc.Ops = append(sc.Ops, op{K: "kawake", C: c, Fail: rd.Chance(2, 3), Hold: rd.Chance(1, 4)})
+		case x < 54:
+			sc.Ops = append(sc.Ops, op{K: "readerr", C: c, Hold: rd.Chance(1, 3), HoldAt: []string{"notify", "sweep"}[rd.Intn(2)]})
+		case x < 57:
+			sc.Ops = append(sc.Ops, op{K: "storm", P: p, N: 2 + rd.Intn(4)})
+			nconn += 2
 		case x < 60:
 			sc.Ops = append(sc.Ops, op{K: "notify", C: c})
 		case x < 80:
@@ -608,8 +920,19 @@ func genScenario(rd *vh.Rand, i int) scenario {
 			sc.Ops = append(sc.Ops, op{K: "relay", P: p})
 		case x < 95:
 			sc.Ops = append(sc.Ops, op{K: "disconnect", P: p})
-		default:
+		case x < 97:
 			sc.Ops = append(sc.Ops, op{K: "disconnectall"})
+		default:
+			// DisconnectAll with slow Close calls, things happening in between
+			sc.Ops = append(sc.Ops, op{K: "dabegin"}, op{K: "daclose"})
+			if rd.Chance(2, 3) {
+				sc.Ops = append(sc.Ops, op{K: "readerr", C: -1})
+			}
+			if rd.Chance(2, 3) {
+				sc.Ops = append(sc.Ops, op{K: []string{"dial", "accept"}[rd.Intn(2)], P: -1})
+				nconn++
+			}
+			sc.Ops = append(sc.Ops, op{K: "daclose"}, op{K: "daclose"})
 		}
 	}
 	return sc
@@ -635,6 +958,16 @@ func coqOp(o op) string {
 		return fmt.Sprintf("Relay %s", vh.CoqN(uint64(o.P)))
 	case "notify":
 		return fmt.Sprintf("Notify %s", vh.CoqNat(o.C))
+	case "kahang":
+		return fmt.Sprintf("KaHang %s", vh.CoqNat(o.C))
+	case "kawake":
+		return fmt.Sprintf("KaWake %s %s %s", vh.CoqNat(o.C), vh.CoqBool(o.Fail), vh.CoqBool(o.Hold))
+	case "storm":
+		return fmt.Sprintf("Storm %s %s", vh.CoqN(uint64(o.P)), vh.CoqNat(o.N))
+	case "dabegin":
+		return "DABegin"
+	case "daclose":
+		return fmt.Sprintf("DAClose %s", vh.CoqNat(o.C))
 	}
 	panic("op")
 }
